@@ -408,9 +408,15 @@ class Zeroconf(QuietLogger):
                     for record in replaced.dns_addresses(override_ttl=0)
                     if record not in current and record not in shared
                 ]
-                return asyncio.ensure_future(
-                    self._async_broadcast_service(info, _REGISTER_TIME, None, True, withdrawn)
-                )
+                if withdrawn:
+                    # On its own and tracked like every goodbye: the announcements
+                    # stop when the service is replaced or unregistered again, and
+                    # a shutdown waits for what was promised to be withdrawn
+                    goodbye = asyncio.ensure_future(
+                        self._async_broadcast_address_goodbyes(withdrawn, replaced.server_key)
+                    )
+                    self._goodbye_tasks.add(goodbye)
+                    goodbye.add_done_callback(self._goodbye_tasks.discard)
         return asyncio.ensure_future(self._async_broadcast_service(info, _REGISTER_TIME, None))
 
     async def async_get_service_info(
@@ -436,7 +442,6 @@ class Zeroconf(QuietLogger):
         interval: int,
         ttl: Optional[int],
         broadcast_addresses: bool = True,
-        withdrawn: Optional[List[DNSRecord]] = None,
     ) -> None:
         """Send a broadcasts to announce a service at intervals."""
         for i in range(_REGISTER_BROADCASTS):
@@ -446,11 +451,7 @@ class Zeroconf(QuietLogger):
                 # The service was unregistered or replaced while it was still
                 # being announced, announcing it again would undo the goodbye
                 return
-            out = self.generate_service_broadcast(info, ttl, broadcast_addresses)
-            if withdrawn:
-                for record in withdrawn:
-                    out.add_answer_at_time(record, 0)
-            self.async_send(out)
+            self.async_send(self.generate_service_broadcast(info, ttl, broadcast_addresses))
 
     def generate_service_broadcast(
         self,
@@ -615,6 +616,23 @@ class Zeroconf(QuietLogger):
             if key is not None and self.registry.async_get_info_name(key) is not None:
                 # The name was registered again in the meantime, another
                 # goodbye would withdraw the new registration
+                return
+            self.async_send(out)
+
+    async def _async_broadcast_address_goodbyes(self, withdrawn: List[DNSRecord], server_key: str) -> None:
+        """Withdraw the addresses an update took away from a host, at intervals."""
+        for i in range(_REGISTER_BROADCASTS):
+            if i != 0:
+                await asyncio.sleep(millis_to_seconds(_UNREGISTER_TIME))
+            # (not the ones a registered service of the host has got back since)
+            advertised: Set[DNSRecord] = set()
+            for other in self.registry.async_get_infos_server(server_key):
+                advertised.update(other.dns_addresses())
+            out = DNSOutgoing(_FLAGS_QR_RESPONSE | _FLAGS_AA)
+            for record in withdrawn:
+                if record not in advertised:
+                    out.add_answer_at_time(record, 0)
+            if not out.answers:
                 return
             self.async_send(out)
 
